@@ -65,7 +65,11 @@ type ExecDouble struct {
 	blockFinal   atomic.Bool
 	inFlightExec atomic.Int64
 	inFlightFin  atomic.Int64
+	inFlightGet  atomic.Int64
 }
+
+// InFlightGetTxs returns how many GetTxs calls are currently waiting inside the double.
+func (e *ExecDouble) InFlightGetTxs() int64 { return e.inFlightGet.Load() }
 
 // BlockCalls switches the "remote client hangs until the caller gives up" mode on or off.
 func (e *ExecDouble) BlockCalls(on bool) { e.blockCalls.Store(on) }
@@ -151,6 +155,16 @@ func (e *ExecDouble) InitChain(ctx context.Context, genesisTime time.Time, initi
 
 func (e *ExecDouble) GetTxs(ctx context.Context) ([][]byte, error) {
 	e.delay("gettxs")
+	if e.blockCalls.Load() {
+		// the remote client hangs: only the caller's context ends the call
+		e.inFlightGet.Add(1)
+		<-ctx.Done()
+		e.inFlightGet.Add(-1)
+		if e.AbortErr != nil {
+			return nil, e.AbortErr
+		}
+		return nil, ctx.Err()
+	}
 	e.mu.Lock()
 	defer e.mu.Unlock()
 	if e.GetTxsErr > 0 {
